@@ -70,8 +70,17 @@ func cportsYAML(ps []CPort) string {
 	return "[" + strings.Join(parts, ", ") + "]"
 }
 
+// podSpecYAML: one container holding all ports, or - for three or more ports, and for two ports when their count is even - several
+// containers sharing them (the ports of a pod are the ports of ALL its containers; which container declares a port means nothing)
 func podSpecYAML(ind string, ports []CPort) string {
-	return ind + "containers:\n" + ind + "- name: \"c\"\n" + ind + "  image: \"img\"\n" + ind + "  ports: " + cportsYAML(ports) + "\n"
+	one := func(name string, ps []CPort) string {
+		return ind + "- name: " + q(name) + "\n" + ind + "  image: \"img\"\n" + ind + "  ports: " + cportsYAML(ps) + "\n"
+	}
+	if len(ports) >= 2 && (len(ports) >= 3 || ports[0].Num%2 == 0) {
+		cut := (len(ports) + 1) / 2
+		return ind + "containers:\n" + one("c", ports[:cut]) + one("sidecar", ports[cut:]) + one("idle", nil)
+	}
+	return ind + "containers:\n" + one("c", ports)
 }
 
 func workloadDocs(w *Workload) []Doc {
